@@ -129,12 +129,23 @@ def main(argv=None):
                 eng.functions_seen.add(d.get('func', ''))
         except (Unsupported, ContractError) as e:
             problems.append(('unsupported' if isinstance(e, Unsupported) else 'undecided', 'extra_obligations', str(e)))
-    results = solve.discharge(eng.obligations, timeout_s)
-    groups = group(eng.obligations, results)
     findings = load_findings(pid)
     finding_by_ob = {}
     for f in findings:
         finding_by_ob.setdefault(f['obligation'], []).append(f)
+    # an obligation with a recorded finding is expected to fail: a short first attempt (is the finding stale, i.e. is it
+    # proved now?), then the decisive query is the re-proof with the finding's region excluded.  `unknown` on the short
+    # attempt is treated like the recorded refutation - the region-excluded proof below still has to succeed.
+    for ob in eng.obligations:
+        if ob.name in finding_by_ob and not getattr(ob, 'expect_fail', False):
+            ob.timeout = 6
+            ob.known_short = True
+    results = solve.discharge(eng.obligations, timeout_s)
+    for ob, r in zip(eng.obligations, results):
+        if getattr(ob, 'known_short', False) and r['status'] == 'unknown':
+            r['status'] = 'refuted-candidate'
+            r['backend'] = 'known-finding (short attempt undecided)'
+    groups = group(eng.obligations, results)
 
     n_obl = n_dis = 0
     refuted, unknown = [], []
